@@ -332,8 +332,9 @@ def d1(ctx, rep):
                 tau_verdict = passed == {u, v}
     if tau_anchor is not None:
         from ..idioms import row_subsets_reaching
-        for st, tn, bn, how in row_subsets_reaching(fn.node, {u, v, fn.params[0] if fn.params else None} - {None}, before=tau_anchor):
-            if tn in (u, v, fn.params[0] if fn.params else None):
+        xp_ = fn.data_params[0] if fn.data_params else None
+        for st, tn, bn, how in row_subsets_reaching(fn.node, {u, v, xp_} - {None}, before=tau_anchor):
+            if tn in (u, v, xp_):
                 rep.bad('D1.path', fn, st, f'{tn} is re-bound to {how} of {bn} before tau is estimated: tau is not the Kendall statistic of the sample', construct='tau from all rows')
     if tau_anchor is None or tau_verdict is None:
         rep.undecided('D1.path', fn, fn.node.name, 'where fit assigns self.tau (directly or in a private helper) was not recognised', construct='tau assignment')
@@ -649,8 +650,24 @@ def d5_pure(ctx, rep):
                     if is_self_attr(a, ct.self_name) and c.lookup(a.attr) is not None and c.lookup(a.attr) not in closure:
                         closure.append(c.lookup(a.attr))
         bad = False
+        # what the fit pipeline writes besides tau (theta itself): a calibration that reads it depends on the previous fit
+        fitted_state = set()
+        for mname in ('fit', '_compute_theta'):
+            m_ = c.lookup(mname)
+            if m_ is not None:
+                for x in walk_no_nested(m_.node):
+                    if isinstance(x, ast.Assign):
+                        for t in x.targets:
+                            for e in (t.elts if isinstance(t, (ast.Tuple, ast.List)) else [t]):
+                                if is_self_attr(e, m_.self_name):
+                                    fitted_state.add(e.attr)
+        fitted_state.discard('tau')
         for f in closure:
             for x in walk_no_nested(f.node):
+                if isinstance(x, ast.Attribute) and isinstance(x.ctx, ast.Load) and is_self_attr(x, f.self_name) and x.attr in fitted_state:
+                    bad = True
+                    rep.bad('D5.pure', f, x, f'the calibration reads self.{x.attr}, which the previous fit wrote: theta of this fit depends on the fit history of the object, '
+                            'not on this fit\'s tau only', construct=f'{c.name}: calibration reads only tau')
                 tgt = None
                 if isinstance(x, (ast.Assign, ast.AugAssign, ast.AnnAssign)):
                     tgts = x.targets if isinstance(x, ast.Assign) else [x.target]
